@@ -72,3 +72,62 @@ Proof.
   specialize (A a). unfold cov_roundtrip_ok in A. apply Z.eqb_eq, A.
   apply in_map_iff. exists (Z.to_nat a). split; [lia|]. apply in_seq. lia.
 Qed.
+
+(* ---- a zero source leaves the destination unchanged, mode by mode (C10: mask byte 0) ---------- *)
+Lemma d255 d : 0 <= d <= 255 -> lowp_div255 (d * 255) = d.
+Proof. intros. replace (d * 255) with (255 * d) by lia. apply div255_mul255; lia. Qed.
+
+Ltac zero_src :=
+  intros d da Hd; unfold premul in Hd;
+  repeat (first [ rewrite inv_eq by lia | rewrite u16mul_small by nia | rewrite u16add_small by nia
+                | rewrite u16sub_small by nia ]);
+  cbn [Z.leb]; rewrite ?Z.mul_0_l, ?Z.mul_0_r, ?Z.add_0_l, ?Z.add_0_r, ?Z.sub_0_r.
+
+Theorem mask0_keeps_dst :
+  forall d da, premul d da ->
+  lowp_source_over 0 d 0 da = d /\ lowp_destination_over 0 d 0 da = d /\
+  lowp_destination_out 0 d 0 da = d /\ lowp_source_atop 0 d 0 da = d /\
+  lowp_xor 0 d 0 da = d /\ lowp_plus 0 d 0 da = d /\ lowp_screen 0 d 0 da = d /\
+  lowp_multiply 0 d 0 da = d /\ lowp_darken 0 d 0 da = d /\ lowp_lighten 0 d 0 da = d /\
+  lowp_difference 0 d 0 da = d /\ lowp_exclusion 0 d 0 da = d /\
+  lowp_hard_light 0 d 0 da = d /\ lowp_overlay 0 d 0 da = d.
+Proof.
+  intros d da Hd. unfold premul in Hd.
+  assert (I0 : lowp_inv 0 = 255) by reflexivity.
+  assert (Ida : lowp_inv da = 255 - da) by (apply inv_eq; lia).
+  assert (M0 : forall x, u16mul 0 x = 0) by (intros; unfold u16mul, u16wrap; rewrite Z.mul_0_l; reflexivity).
+  assert (M0r : forall x, u16mul x 0 = 0) by (intros; unfold u16mul, u16wrap; rewrite Z.mul_0_r; reflexivity).
+  assert (Md : u16mul d 255 = d * 255) by (apply u16mul_small; lia).
+  assert (A0 : forall x, 0 <= x < 65536 -> u16add 0 x = x) by (intros; apply u16add_small; lia).
+  assert (A0r : forall x, 0 <= x < 65536 -> u16add x 0 = x) by (intros; rewrite u16add_small; lia).
+  assert (S0 : forall x, 0 <= x < 65536 -> u16sub x 0 = x) by (intros; rewrite u16sub_small; lia).
+  assert (D : lowp_div255 (d * 255) = d) by (apply d255; lia).
+  assert (D0 : lowp_div255 0 = 0) by reflexivity.
+  repeat split.
+  - unfold lowp_source_over. rewrite I0, Md, D. apply A0. lia.
+  - unfold lowp_destination_over. rewrite M0, D0. apply A0r. lia.
+  - unfold lowp_destination_out. rewrite I0, Md. exact D.
+  - unfold lowp_source_atop. rewrite I0, M0, Md, A0 by lia. exact D.
+  - unfold lowp_xor. rewrite I0, M0, Md, A0 by lia. exact D.
+  - unfold lowp_plus. rewrite A0 by lia. lia.
+  - unfold lowp_screen. rewrite M0, D0, A0 by lia. apply S0. lia.
+  - unfold lowp_multiply. rewrite I0, !M0, Md, A0 by lia. rewrite A0r by lia. exact D.
+  - unfold lowp_darken. rewrite M0, M0r. change (Z.max 0 0) with 0. rewrite D0, A0 by lia. apply S0. lia.
+  - unfold lowp_lighten. rewrite M0, M0r. change (Z.min 0 0) with 0. rewrite D0, A0 by lia. apply S0. lia.
+  - unfold lowp_difference. rewrite M0, M0r. change (Z.min 0 0) with 0. rewrite D0, M0r, A0 by lia. apply S0. lia.
+  - unfold lowp_exclusion. rewrite M0, D0, M0r, A0 by lia. apply S0. lia.
+  - unfold lowp_hard_light. rewrite I0, M0, Md. replace (u16add 0 0) with 0 by reflexivity.
+    replace (0 <=? 0) with true by reflexivity. rewrite M0r, M0, A0 by lia. rewrite A0r by lia. exact D.
+  - unfold lowp_overlay. rewrite I0, M0, Md.
+    destruct (u16add d d <=? da).
+    + rewrite M0r, M0, A0 by lia. rewrite A0r by lia. exact D.
+    + assert (u16sub 0 0 = 0) by reflexivity. rewrite H, M0r, !M0. replace (u16sub 0 0) with 0 by reflexivity.
+      rewrite A0 by lia. rewrite A0r by lia. exact D.
+Qed.
+
+(* the seven modes for which a zero source does NOT give back the destination: a mask byte 0
+   overwrites the destination there (finding C10-mask-scales-source) *)
+Theorem mask0_refuted :
+  lowp_source_in 0 200 0 255 = 0 /\ lowp_destination_in 0 200 0 255 = 0 /\ lowp_source_out 0 200 0 255 = 0 /\
+  lowp_destination_atop 0 200 0 255 = 0 /\ lowp_modulate 0 200 0 255 = 0 /\ lowp_clear 0 200 0 255 = 0.
+Proof. repeat split; reflexivity. Qed.
